@@ -195,6 +195,12 @@ def prepare_evo_aspirate_dispense_parameters(
         if tip == Tip.Any:
             raise ValueError("Invalid tips: Tip.Any can not be used in EVO script commands.")
         tecan_tips.append(tip)
+    # EVOware pairs the selected tips in ascending order with the selected wells in ascending row order.
+    # The i-th well/volume belongs to the i-th tip only if both are given in that order and without repeats.
+    if any(t1 >= t2 for t1, t2 in zip(tecan_tips[:-1], tecan_tips[1:])):
+        raise ValueError(f"Invalid tips: {tips}. Tips must be in ascending order without repeats.")
+    if any(w1 >= w2 for w1, w2 in zip(wells_list[:-1], wells_list[1:])):
+        raise ValueError(f"Invalid wells: {wells_list}. Wells must be in ascending order without repeats.")
 
     if arm is None:
         raise ValueError("Missing required paramter: arm")
